@@ -5,6 +5,7 @@ import (
 	"fmt"
 	"os"
 	"reflect"
+	"runtime"
 	"sort"
 	"strconv"
 	"strings"
@@ -143,21 +144,25 @@ func tornFeasible(reads []tornRead, lo, hi int64) (bool, string) {
 	for _, rd := range reads {
 		if rd.Present {
 			if rd.Version < cur {
-				return false, fmt.Sprintf("key %q shows batch %d although batch %d was already visible", rd.Key, rd.Version, cur)
+				return false, fmt.Sprintf("key %q shows batch %d although the effects of batch %d were already visible before it was read", rd.Key, rd.Version, cur)
 			}
 			cur = rd.Version
 		} else if cur%3 != 0 {
+			prev := cur
 			cur += 3 - cur%3 // next deleting batch
+			if cur > hi {
+				return false, fmt.Sprintf("key %q is absent after the effects of batch %d were visible, which needs the deleting batch %d, but only %d batches had been started", rd.Key, prev, cur, hi)
+			}
 		}
 	}
 	if cur > hi {
-		return false, fmt.Sprintf("the reads need batch %d to have started, but only %d had", cur, hi)
+		return false, fmt.Sprintf("the reads need batch %d, but only %d batches had been started", cur, hi)
 	}
 	return true, ""
 }
 
 // tornCheck runs one writer (batches that always write all four keys with the same version,
-// in a seeded order, every third batch deleting them) against one reader (alternating a range
+// in a seeded order, every third batch deleting them) against three readers (alternating a range
 // scan and point reads in descending key order).
 func tornCheck(r *ev.Run, root, id string, sp *spec) {
 	dir, err := os.MkdirTemp(root, "t")
@@ -171,10 +176,16 @@ func tornCheck(r *ev.Run, root, id string, sp *spec) {
 		r.Inconclusive(fmt.Sprintf("cannot open %s: %v", sp.name, err))
 		return
 	}
-	n := int64(r.Pick(150, 1500))
+	// Fixed bounds (counts, not time): the writer commits at least n batches and goes on (up to
+	// nmax) while a reader has not finished its minimum; each reader makes at least rmin rounds
+	// and goes on (up to rmax) while the writer has not finished its minimum.
+	const nReaders = 3
+	n := int64(r.Pick(600, 4000))
+	nmax := 20 * n
 	rmin, rmax := int(n), int(20*n)
 	var started, completed atomic.Int64
-	var writerDone atomic.Bool
+	var writerMin atomic.Bool
+	var readersMin atomic.Int32
 	wrng := r.Rand("torn-writer/" + sp.name)
 	begin := make(chan struct{})
 	var wg sync.WaitGroup
@@ -182,9 +193,12 @@ func tornCheck(r *ev.Run, root, id string, sp *spec) {
 	wg.Add(1)
 	go func() { // writer
 		defer wg.Done()
-		defer writerDone.Store(true)
+		defer writerMin.Store(true)
 		<-begin
-		for k := int64(1); k <= n; k++ {
+		for k := int64(1); k <= nmax && (k <= n || readersMin.Load() < nReaders); k++ {
+			if k == n+1 {
+				writerMin.Store(true)
+			}
 			perm := wrng.Perm(len(tornKeys))
 			started.Store(k)
 			var err error
@@ -212,18 +226,37 @@ func tornCheck(r *ev.Run, root, id string, sp *spec) {
 		}
 	}()
 
+	var mu sync.Mutex // guards the counters below
 	var attempted, rounds, overlapping, mixed, torn, tornReported int
-	wg.Add(1)
-	go func() { // reader
+	parse := func(k, v string) (int64, string) {
+		ver, _ := strconv.ParseInt(v[:min(7, len(v))], 10, 64)
+		if ver < 1 || ver > nmax || tornIsDelete(ver) || v != tornValue(ver) {
+			return ver, fmt.Sprintf("key %q has value %q that no batch wrote", k, v)
+		}
+		return ver, ""
+	}
+	reader := func(ri int) {
 		defer wg.Done()
+		reachedMin := false
+		defer func() {
+			if !reachedMin {
+				readersMin.Add(1) // never leave the writer waiting
+			}
+		}()
 		<-begin
-		for j := 0; j < rmax && (j < rmin || !writerDone.Load()); j++ {
+		for j := 0; j < rmax && (j < rmin || !writerMin.Load()); j++ {
+			if j == rmin {
+				reachedMin = true
+				readersMin.Add(1)
+			}
+			mu.Lock()
 			attempted++
+			mu.Unlock()
 			lo := completed.Load()
 			var reads []tornRead
 			mode := "find"
 			bad := ""
-			if j%2 == 0 {
+			if (j+ri)%2 == 0 {
 				got := map[string]string{}
 				var order []string
 				if r.Guard("find/"+sp.site, map[string]any{"case_id": id, "round": j}, func() {
@@ -232,6 +265,7 @@ func tornCheck(r *ev.Run, root, id string, sp *spec) {
 					for it.Next() {
 						got[it.Key()] = it.Value()
 						order = append(order, it.Key())
+						runtime.Gosched() // schedule perturbation only
 					}
 				}) {
 					if sp.site == "buffer-kv" {
@@ -247,9 +281,9 @@ func tornCheck(r *ev.Run, root, id string, sp *spec) {
 					delete(got, k)
 					rd := tornRead{Key: k, Present: ok}
 					if ok {
-						rd.Version, _ = strconv.ParseInt(v[:min(7, len(v))], 10, 64)
-						if rd.Version < 1 || rd.Version > n || tornIsDelete(rd.Version) || v != tornValue(rd.Version) {
-							bad = fmt.Sprintf("key %q has value %q that no batch wrote", k, v)
+						var b string
+						if rd.Version, b = parse(k, v); b != "" {
+							bad = b
 						}
 					}
 					reads = append(reads, rd)
@@ -266,13 +300,14 @@ func tornCheck(r *ev.Run, root, id string, sp *spec) {
 					if r.Guard("get/"+sp.site, map[string]any{"case_id": id, "round": j}, func() { v, err = in.kv.Get(k) }) {
 						return
 					}
+					runtime.Gosched() // schedule perturbation only
 					rd := tornRead{Key: k}
 					switch {
 					case err == nil:
 						rd.Present = true
-						rd.Version, _ = strconv.ParseInt(v[:min(7, len(v))], 10, 64)
-						if rd.Version < 1 || rd.Version > n || tornIsDelete(rd.Version) || v != tornValue(rd.Version) {
-							bad = fmt.Sprintf("key %q has value %q that no batch wrote", k, v)
+						var b string
+						if rd.Version, b = parse(k, v); b != "" {
+							bad = b
 						}
 					case !errors.Is(err, sorted.ErrNotFound):
 						bad = fmt.Sprintf("Get(%q) with a concurrent writer = %v", k, err)
@@ -281,20 +316,34 @@ func tornCheck(r *ev.Run, root, id string, sp *spec) {
 				}
 			}
 			hi := started.Load()
-			rounds++
-			if hi > lo {
-				overlapping++
-			}
 			vers := map[int64]bool{}
 			for _, rd := range reads {
 				if rd.Present {
 					vers[rd.Version] = true
 				}
 			}
+			ok, why := true, ""
+			if bad == "" {
+				ok, why = tornFeasible(reads, lo, hi)
+			}
+			mu.Lock()
+			rounds++
+			if hi > lo {
+				overlapping++
+			}
 			if len(vers) > 1 {
 				mixed++
 			}
-			witness := map[string]any{"case_id": id, "impl": sp.name, "round": j, "mode": mode, "reads_in_time_order": reads,
+			reportIt := false
+			if !ok {
+				torn++
+				if sp.judgeTorn && tornReported < 3 {
+					tornReported++
+					reportIt = true
+				}
+			}
+			mu.Unlock()
+			witness := map[string]any{"case_id": id, "impl": sp.name, "reader": ri, "round": j, "mode": mode, "reads_in_time_order": reads,
 				"batches_completed_before": lo, "batches_started_after": hi, "writer": "batch k sets all four keys to version k (k%3==0: deletes all four)"}
 			if bad != "" {
 				if sp.judgeTorn {
@@ -304,18 +353,18 @@ func tornCheck(r *ev.Run, root, id string, sp *spec) {
 				}
 				continue
 			}
-			if ok, why := tornFeasible(reads, lo, hi); !ok {
-				torn++
-				if os.Getenv("C10_DEBUG") != "" {
-					fmt.Fprintf(os.Stderr, "TORN %s mode=%s lo=%d hi=%d reads=%+v why=%s\n", sp.name, mode, lo, hi, reads, why)
-				}
-				if sp.judgeTorn && tornReported < 3 {
-					tornReported++
-					r.Violation("batch-torn/"+sp.site, fmt.Sprintf("[%s] a reader saw part of a batch (%s): %s", sp.name, mode, why), witness)
-				}
+			if !ok && os.Getenv("C10_DEBUG") != "" {
+				fmt.Fprintf(os.Stderr, "TORN %s mode=%s lo=%d hi=%d reads=%+v why=%s\n", sp.name, mode, lo, hi, reads, why)
+			}
+			if reportIt {
+				r.Violation("batch-torn/"+sp.site, fmt.Sprintf("[%s] a reader saw part of a batch (%s): %s", sp.name, mode, why), witness)
 			}
 		}
-	}()
+	}
+	for ri := 0; ri < nReaders; ri++ {
+		wg.Add(1)
+		go reader(ri)
+	}
 	close(begin)
 	wg.Wait()
 	func() {
@@ -333,7 +382,7 @@ func tornCheck(r *ev.Run, root, id string, sp *spec) {
 	} else {
 		r.Count("torn_observed_unjudged/"+sp.name, torn)
 	}
-	if completed.Load() == n && attempted >= rmin && rounds > 0 {
+	if completed.Load() >= n && attempted >= nReaders*rmin && rounds > 0 {
 		r.Note("torn_subcheck_ran", sp.name)
 		r.Note("events", "torn-subcheck")
 	}
